@@ -18,8 +18,7 @@ TYPES = ['Length', 'Mass', 'Duration', 'Area', 'Volume', 'Speed', 'Acceleration'
 def build(cfg='f64'):
     tgt = os.path.join(BUILD, f'replay-{cfg}')
     cmd = ['cargo', 'build', '--release', '--offline', '--target-dir', tgt]
-    if cfg == 'dec':
-        cmd += ['--features', 'dec']
+    cmd += ['--features', 'dec' if cfg == 'dec' else 'astro']
     rc, out, err, _ = run(cmd, cwd=os.path.join(VERIF, 'replay'), timeout=900)
     if rc != 0:
         raise RuntimeError('replay crate does not build: ' + err[-1500:])
@@ -137,7 +136,50 @@ def jobs_for(exe, types, seed):
     return jobs
 
 
+def c07_replay(failure):
+    """the failing 'input' of a C07 table obligation is the unit itself: read its scale from the
+    real compiled code and compare with the independent definition, exactly"""
+    import re
+    import spec_tables as ST
+    m = re.match(r'c07_(q|astro)_(f64|dec):lemma_C07_scale_(\w+?)_(\w+)$', failure.get('obligation', ''))
+    note = next((d for d in [failure.get('note')] if d), None)
+    if not m:
+        return None
+    crate = 'quantities' if m.group(1) == 'q' else 'astro'
+    cfg, X, variant = m.group(2), m.group(3), m.group(4)
+    exe = build(cfg)
+    tname = X if crate == 'quantities' else 'astro::' + X
+    rc, out, err, _ = run([exe, 'units', tname])
+    tab = ST.Table(crate)
+    for line in out.split('\n'):
+        f = line.split()
+        if len(f) < 4:
+            continue
+        ident = f[2]
+        if ident.replace('_', '').lower() != variant.lower():
+            continue
+        if ident not in tab.units(X):
+            return None
+        lo, hi = tab.interval(X, ident)
+        val = Fraction(unbits(f[3])) if cfg == 'f64' else Fraction(f[3])
+        if cfg == 'f64':
+            ok = lo * (1 - 2 * U) <= val <= hi * (1 + 2 * U)
+            tol = 'one ulp (2^-52 relative)'
+        else:
+            ok = abs(val - lo) <= Fraction(5, 10 ** 19) if lo == hi else (lo - Fraction(5, 10 ** 19) <= val <= hi + Fraction(5, 10 ** 19))
+            tol = '5e-19 absolute (18 fractional digits)'
+        if not ok:
+            return {'config': cfg, 'crate': crate, 'type': X, 'unit': ident, 'scale_returned_by_real_code': f[3],
+                    'scale_exact': str(val), 'definition': tab.units(X)[ident].get('def'), 'definition_value': str(lo) if lo == hi else [str(lo), str(hi)],
+                    'relative_error': float(abs(val - lo) / lo), 'tolerance': tol,
+                    'what_fails': f'{X}::{ident}.scale() = {float(val)!r} differs from its definition {float(lo)!r} by more than {tol}',
+                    'cmd': f'{exe} units {tname}'}
+    return None
+
+
 def search(prop, failure, seed, types=None, limit=None):
+    if prop == 'C07':
+        return c07_replay(failure)
     if prop not in ('C01', 'C02', 'C03'):
         return None
     exe = build('f64')
